@@ -145,6 +145,9 @@ def c04 (args : List String) : String :=
         let (_, outs) := as.foldl (fun (acc : Adapt Float × List String) a =>
           let s := adaptStep lo hi delta gamma 0.75 10 acc.1 a
           (s, acc.2 ++ [fmt s])) (s1, [fmt s1])
+        -- `μ = ln(10 ε)` of `init_chain`: when `10·ε` exceeds f32's largest number the f32 code gets `ln(inf) = inf`, the f64
+        -- evaluation of the model a finite value — the model cannot follow that history (ε had run away to the clamp)
+        if ty = "f32" && 10 * s1.eps > hi then id ++ " INDET" else
         id ++ " " ++ " | ".intercalate outs
       | _, _, _ => id ++ " bad-op"
     | _, _ => id ++ " bad-op"
